@@ -128,6 +128,9 @@ func TestC08(t *testing.T) {
 			cases := []string{}
 			for _, n := range []int{254, 255, 256, 257, 300} {
 				cases = append(cases, bn.KwFun+" f("+params(n)+") { }")
+				// every token on its own line (leading-comma layout), so that the line of the diagnostic identifies the token
+				cases = append(cases, bn.KwPrint+" 1;\n"+bn.KwFun+"\nf\n(\n"+strings.ReplaceAll(params(n), ",\n", "\n,\n")+"\n)\n{\n}\n")
+				cases = append(cases, bn.KwFun+" f(\n"+strings.ReplaceAll(params(n), ",\n", "\n, ")+"\n) { }\n")
 				cases = append(cases, bn.KwFun+" f("+strings.ReplaceAll(params(n), "\n", " ")+") { }\n"+bn.KwPrint+" 1;")
 			}
 			args := make([]string, 1000)
